@@ -1241,7 +1241,6 @@ func c17Caps(r *core.Run) {
 	r.Floor("C17.CAPS", "expression renderings inside the renamer", nD, 1)
 }
 
-
 // slotOf: the local variable a value was loaded from (the value itself otherwise).
 func slotOf(v ssa.Value) ssa.Value {
 	v = core.Unwrap(v)
